@@ -2104,7 +2104,8 @@ def halfspace_to_poincare(points):
     v = points[..., :-1]
     x2 = utils.normsq(v)
 
-    poincare_coords = np.zeros_like(points)
+    # integer-valued input must not truncate the (non-integer) result
+    poincare_coords = np.zeros_like(points, dtype=np.result_type(points, 1.0))
     denom = (x2 + (y + 1)*(y + 1))
     poincare_coords[..., 1:] = (-2 * v) / denom[..., np.newaxis]
     poincare_coords[..., 0] = (x2 + y * y - 1) / denom
